@@ -176,8 +176,56 @@ def make():
     return fn
 
 
+def scale_fn(g):
+    """Megabyte-sized output in many chunks, on one or both streams."""
+    import conductor.cli.run as cli_run
+    parallel = g.flag("parallel_slot")
+    both = g.flag("both_streams")
+    piece = (4096, 5000, 65536)[g.choose("piece", 3)]
+    total = (1 << 20) + 123
+    data_out = pool(total, 5)
+    data_err = pool(total // 2 + 7, 6) if both else b""
+    proj = hrun.Project()
+    try:
+        proj.write_tasks([TaskSpec("e", "run_experiment", [], par=parallel, run="./exp.sh")])
+
+        class S(fakeos.Sched):
+            def status_for(self, kernel, proc):
+                import threading
+
+                def writer(which, data):
+                    for i in range(0, len(data), piece):
+                        kernel.child_write(proc, which, data[i:i + piece])
+                ts = [threading.Thread(target=writer, args=("out", data_out))] + ([threading.Thread(target=writer, args=("err", data_err))] if both else [])
+                for t in ts:
+                    t.start()
+                for t in ts:
+                    t.join()
+                return fakeos.StatusExited(0)
+        kern = fakeos.Kernel(S(), clock=fakeos.Clock())
+        res = hrun.invoke(cli_run.main, hrun.run_ns(task_identifier="//:e", jobs=2 if parallel else None), str(proj.root), kern, timeout=120)
+        D = "1 MiB on stdout%s in pieces of %d bytes, parallel=%s" % (" and 0.5 MiB on stderr" if both else "", piece, parallel)
+        if isinstance(res.status, str):
+            g.require(False, "log:crash:" + res.status[4:], "%s; %s" % (res.exc, D))
+        g.require(res.status == 0, "log:run-failed", "status=%r; %s" % (res.status, D))
+        out = kern.tasks()[0].env["COND_OUT"]
+        for name, want in (("stdout.log", data_out), ("stderr.log", data_err)):
+            got = open(os.path.join(out, name), "rb").read()
+            g.require(got == want, "log:%s-differs" % name, "%s has %d bytes, the command wrote %d%s; %s" % (
+                name, len(got), len(want), "" if len(got) != len(want) else " (same length, different content)", D))
+        if not parallel:
+            g.require(res.stdout.forwarded() == data_out and res.stderr.forwarded() == data_err, "log:stdout-not-forwarded-exactly",
+                      "forwarded %d/%d bytes; %s" % (len(res.stdout.forwarded()), len(res.stderr.forwarded()), D))
+        g.goal("output of more than one megabyte")
+        return {"nontrivial": True, "sample": {"case": D}}
+    finally:
+        proj.cleanup()
+
+
 def spaces(tier):
-    return [Space("chunk-schedules", make(),
+    return [Space("scale-megabyte-output", scale_fn, "1 MiB + 123 bytes on stdout (and 0.5 MiB on stderr, written concurrently) in pieces of 4096 / 5000 / "
+                  "65536 bytes; sequential and parallel slot", depth=3, goals=["output of more than one megabyte"]),
+            Space("chunk-schedules", make(),
                   "sequential | parallel slot; stdout 0..3 chunks with lengths from {0,1,4095,4096,4097,65537}; stderr absent or one "
                   "chunk from {0,1,4097}; stderr first / interleaved; 4 args/options decorations", depth=7,
                   goals=["sequential run teed through pipes", "parallel slot logging straight to files", "chunk of at least one tee buffer",
@@ -190,9 +238,9 @@ def canaries(tier):
         Canary("tee-drops-last-byte-of-a-full-chunk",
                lambda: rewrite("conductor.utils.tee", "TeeProcessor._tee_pipe_run", "file.write(data)",
                                "file.write(data[:-1] if len(data) == 4096 else data)"),
-               preset={"parallel_slot": False, "nout": 1, "olen0": 3, "use_stderr": False, "decor": 0}),
+               preset={"parallel_slot": False, "nout": 1, "olen0": 3, "use_stderr": False, "decor": 0}, space="chunk-schedules"),
         Canary("options-json-not-written",
                lambda: rewrite("conductor.execution.ops.run_task_executable", "RunTaskExecutable.finish_execution",
                                "if not self._options.empty():", "if False:"),
-               preset={"decor": 1, "nout": 0, "use_stderr": False}),
+               preset={"decor": 1, "nout": 0, "use_stderr": False}, space="chunk-schedules"),
     ]
